@@ -331,7 +331,22 @@ impl Property for C12 {
                     let waits = lock_waits(g);
                     // the job (child process) for which a redo process took a lock byte
                     let jobs = c06::job_lock_bytes(g);
-                    let cross = !waits.is_empty()
+                    // Did any process try to lock a target that one of its own
+                    // ancestors is building?  redo refuses that before it touches
+                    // the lock file, so such an attempt means the REDO_CYCLES check
+                    // was bypassed: not the known parallel-entry deadlock.
+                    let own_attempt = g.events.iter().any(|e| {
+                        if !matches!(e.kind, crate::sim::EvKind::Op(crate::sim::Class::Lock)) {
+                            return false;
+                        }
+                        let w: Vec<&str> = e.text.split(' ').collect();
+                        w.len() >= 5
+                            && w[1] == ".redo/locks"
+                            && w[2] == "wr"
+                            && jobs.iter().any(|(j, fb)| fb == w[3] && e.lid.starts_with(&format!("{}.", j)))
+                    });
+                    let cross = !own_attempt
+                        && !waits.is_empty()
                         && waits.iter().all(|(w, b, h)| match h {
                             None => false,
                             Some(h) => {
